@@ -87,6 +87,28 @@ func (st *State) specEnv(f *Frame, results []Value, entry bool) *specEnv {
 	return env
 }
 
+// specLoad reads the heap for a specification expression. References found in a heap
+// that came into being at some point (entry, or a havoc) point to objects that existed
+// then: that fact accompanies the read (it keeps later allocations from aliasing them).
+func (st *State) specLoad(env *specEnv, addr string, T types.Type) Value {
+	v := st.loadH(env.heap, addr, T)
+	if env.facts != nil {
+		if f := st.baseAgeFact(v.Term, v.S, true); f != "" {
+			*env.facts = append(*env.facts, f)
+		}
+	}
+	return v
+}
+
+func (st *State) withAgeFact(env *specEnv, v Value) Value {
+	if env.facts != nil {
+		if f := st.baseAgeFact(v.Term, v.S, true); f != "" {
+			*env.facts = append(*env.facts, f)
+		}
+	}
+	return v
+}
+
 func (st *State) evalBool(e *SExpr, env *specEnv, c *Clause) string {
 	v := st.evalSpecSafe(e, env, c)
 	if v.S != SBool {
@@ -429,7 +451,7 @@ func (st *State) specField(x Value, name string, env *specEnv) Value {
 				l := &Loc{Cell: cur.Loc.Cell, Path: append(append([]step(nil), cur.Loc.Path...), step{field: idx, T: ft})}
 				cur = st.readLoc(l)
 			} else {
-				cur = st.loadH(env.heap, st.eng.fsub(cur.Term, pt.Elem(), idx), ft)
+				cur = st.specLoad(env, st.eng.fsub(cur.Term, pt.Elem(), idx), ft)
 			}
 			continue
 		}
@@ -467,12 +489,16 @@ func (st *State) evalAddr(e *SExpr, env *specEnv) (string, types.Type) {
 		if _, ok := obj.(*types.Var); !ok {
 			env.fail("no field %s in %s", e.Name, typeStr(x.T))
 		}
-		pt, ok := x.T.Underlying().(*types.Pointer)
-		if !ok {
+		var addr string
+		var T types.Type
+		if pt, ok := x.T.Underlying().(*types.Pointer); ok {
+			addr, T = x.Term, pt.Elem()
+		} else if _, isStruct := x.T.Underlying().(*types.Struct); isStruct {
+			// a struct that is itself a location (an escaping local, a field): its address
+			addr, T = st.evalAddr(e.Args[0], env)
+		} else {
 			env.fail("location %s: base is not a pointer", e)
 		}
-		addr := x.Term
-		T := pt.Elem()
 		for i, idx := range path {
 			stt := T.Underlying().(*types.Struct)
 			ft := stt.Field(idx).Type()
@@ -502,6 +528,15 @@ func (st *State) evalAddr(e *SExpr, env *specEnv) (string, types.Type) {
 		if sl, ok := x.T.Underlying().(*types.Slice); ok {
 			return elemAddr(app("s_ref", x.Term), app("bvadd", app("s_off", x.Term), i.Term)), sl.Elem()
 		}
+	case KIdent:
+		// a local variable that lives in the heap (its address escapes)
+		if env.frame != nil {
+			for v, r := range env.frame.regs {
+				if al, ok := v.(*ssa.Alloc); ok && al.Comment == e.Name && r.Term != "" {
+					return r.Term, al.Type().(*types.Pointer).Elem()
+				}
+			}
+		}
 	}
 	env.fail("not a location: %s", e)
 	return "", nil
@@ -523,17 +558,17 @@ func (st *State) specIndex(x, i Value, env *specEnv) Value {
 		ii := st.coerceTo(st.widenIndex(i), BV(64), env)
 		es := te.SortOf(u.Elem())
 		if _, isStruct := u.Elem().Underlying().(*types.Struct); isStruct {
-			return st.loadH(env.heap, elemAddr(app("s_ref", x.Term), app("bvadd", app("s_off", x.Term), ii.Term)), u.Elem())
+			return st.specLoad(env, elemAddr(app("s_ref", x.Term), app("bvadd", app("s_off", x.Term), ii.Term)), u.Elem())
 		}
 		arr := st.elemsArr(env.heap, es)
-		return Value{T: u.Elem(), S: es, Term: app("select", app("select", arr, app("s_ref", x.Term)), app("bvadd", app("s_off", x.Term), ii.Term))}
+		return st.withAgeFact(env, Value{T: u.Elem(), S: es, Term: app("select", app("select", arr, app("s_ref", x.Term)), app("bvadd", app("s_off", x.Term), ii.Term))})
 	case *types.Array:
 		ii := st.coerceTo(st.widenIndex(i), BV(64), env)
 		return Value{T: u.Elem(), S: te.SortOf(u.Elem()), Term: app("select", x.Term, ii.Term)}
 	case *types.Map:
 		k := st.coerceTo(i, te.SortOf(u.Key()), env)
 		_, v := st.mapLookupH(env.heap, x, u, k.Term)
-		return v
+		return st.withAgeFact(env, v)
 	case *types.Basic:
 		ii := st.coerceTo(st.widenIndex(i), BV(64), env)
 		return Value{T: types.Typ[types.Byte], S: BV(8), Term: app("str_at", x.Term, ii.Term)}
@@ -926,6 +961,16 @@ func (st *State) specCall(e *SExpr, env *specEnv) Value {
 			// pure_fn(f): calling the function value f changes nothing the caller can observe
 			x := st.evalSpec(args[0], env)
 			st.eng.pre.Fun("fn_pure", "(Ref) Bool")
+			if os_debug {
+				fmt.Printf("pure_fn: Fn=%v Term=%q\n", x.Fn, x.Term)
+			}
+			if x.Fn != nil {
+				// a known function or closure: decided syntactically (reads only)
+				if st.eng.isPureFn(x.Fn) || st.eng.readOnlyFn(x.Fn, 0) {
+					return Value{T: boolT, S: SBool, Term: "true"}
+				}
+				return Value{T: boolT, S: SBool, Term: "false"}
+			}
 			if x.Term == "" {
 				return Value{T: boolT, S: SBool, Term: "true"}
 			}
@@ -1084,6 +1129,7 @@ func (st *State) specCall(e *SExpr, env *specEnv) Value {
 				sub.vars[p] = st.evalSpec(args[i], env)
 			}
 			sub.oldVars = sub.vars
+			sub.frame = nil // a definition is closed over its parameters: no capture of the caller's locals
 			if d.Pkg != "" {
 				if sp := st.eng.ssaPkg(d.Pkg); sp != nil {
 					sub.pkg = sp.Pkg // names in the body are those of the package that wrote the definition
